@@ -89,4 +89,33 @@ pub mod verif_hooks {
     {
         graph::kahn(adjacency)
     }
+
+    pub fn dense_relative_indegree<K: ArrayKind>(
+        adjacency: &IndexedCoproduct<K, FiniteFunction<K>>,
+        f: &FiniteFunction<K>,
+    ) -> FiniteFunction<K>
+    where
+        K::Type<K::I>: NaturalArray<K>,
+    {
+        graph::dense_relative_indegree(adjacency, f)
+    }
+
+    pub fn sparse_relative_indegree<K: ArrayKind>(
+        adjacency: &IndexedCoproduct<K, FiniteFunction<K>>,
+        f: &FiniteFunction<K>,
+    ) -> (FiniteFunction<K>, FiniteFunction<K>)
+    where
+        K::Type<K::I>: NaturalArray<K>,
+    {
+        graph::sparse_relative_indegree(adjacency, f)
+    }
+
+    pub fn filter<K: ArrayKind>(values: &K::Index, predicate: &K::Index) -> K::Index {
+        graph::filter::<K>(values, predicate)
+    }
+
+    pub use crate::strict::functor::optic::verif_hooks_optic::{interleave_blocks, partial_dagger};
+    pub use crate::strict::functor::traits::verif_hooks_traits::{
+        map_half_spider, spider_map_arrow, to_operations,
+    };
 }
